@@ -486,6 +486,12 @@ def gsched_pass(ctx, exe, n, broken):
         if split_line(model_out[i])[1] != "done":
             broken.append("guard+task pass: model driver rejected / got stuck on tree %d: %s" % (i, model_out[i][-200:]))
             continue
+        # registry slot 0 is a STAND-IN for the harness' own fiber in this pass (prelude.py run-tree-gs); a tree that gets hold of it
+        # (`(propagate x (get G 0))` links it as a child, a later cancel walks into it) runs the stand-in, not the model's main
+        # fiber: not comparable, counted
+        if any(re.fullmatch(r"[0-9a-f]+/-?\d+", x) and x[0] != "d" for e in impl[i].split(" | ")[0].split(";") for x in [re.split(r"[ :]", e)[-1]]):
+            cov["gsched_skipped_slot0_touched"] = cov.get("gsched_skipped_slot0_touched", 0) + 1
+            continue
         if split_line(impl[i])[0] != split_line(model_out[i])[0]:
             cov["gsched_diffs"] += 1
             if first_diff is None:
